@@ -245,7 +245,14 @@ func Collect(all []Scenario) (map[string]any, []vcommon.Violation) {
 	for round := 0; ; round++ {
 		var newLocs []string
 		reports, viols, samples, allComplete, newLocs, raceNotes = runRound(id, scens, jobs, promotedLocs, raceNotes)
-		if len(newLocs) == 0 || round >= 6 {
+		if len(newLocs) == 0 {
+			break
+		}
+		if round >= 6 {
+			// still new racy locations after seven rounds: the scenarios that stopped at them were
+			// not explored to their bounds
+			allComplete = false
+			fmt.Printf("WARNING: data races on further locations (%s) after %d rounds; exploration is incomplete\n", strings.Join(newLocs, ", "), round+1)
 			break
 		}
 		promotedLocs = append(promotedLocs, newLocs...)
